@@ -196,7 +196,7 @@ def outreg_cases(rng, n):
         nwo = rng.choice([64, 65, 72, 100, 128]); nfo = rng.choice([0, 1, 16, 30, 40, 63, 64, rng.randint(0, nwo)])
         def code(fm):
             lo, hi = S.fmt_bounds(fm[0], fm[1]); return rng.choice([lo, hi, hi - 1, lo + 1, rng.randint(lo, hi), rng.randint(lo, hi)])
-        cases.append({'x': fxm, 'cx': code(fxm), 'y': fym, 'cy': code(fym), 'op': rng.choice(['+', '-', '*', '*']), 'out': [rng.random() < 0.7, nwo, nfo],
+        cases.append({'x': fxm, 'cx': code(fxm), 'y': fym, 'cy': code(fym), 'op': rng.choice(['+', '-', '*', '*']), 'out': [fxm[0] or fym[0] or rng.random() < 0.7, nwo, nfo],   # (a signed result into an unsigned out is a documented error)
                       'r': rng.choice(RMODES), 'route': rng.choice(['out', 'op_out'])})
     return cases
 
